@@ -406,3 +406,77 @@ def detached_harness(kind):
         ex.check([n_ for n_ in log if n_ != "observe"] == [], "the owner's items listeners hear nothing from a container the attribute no longer holds")
         return {"how": how}
     return harness
+
+
+# ---- the items event of a container trait declared in a BASE class: statically named handlers of subclasses, listener objects
+# ---- that compare equal, and the Undefined marker as an item ------------------------------------------------------------------
+def class_routes_harness(kind):
+    """kind: list | dict | set.  One in-place change of the container of ONE object reaches exactly the handlers that belong to
+    that object: the `_c_items_changed` method of its own class (not of a sibling subclass, not for a base-class instance), and
+    each of two listener objects that compare EQUAL (separate registrations); Undefined is an item like any other: validated,
+    hence rejected"""
+    from traits.api import Int, Str, Undefined
+
+    def harness(ex):
+        decl = {"list": lambda: List(Int), "dict": lambda: Dict(Str, Int), "set": lambda: Set(Int)}[kind]
+        calls = []
+        Base = type("Base", (HasTraits,), {"c": decl()})
+
+        def mk_sub(tag):
+            def _c_items_changed(self, event):
+                calls.append(("static", tag, self.tag))
+            return type("Sub" + tag, (Base,), {"_c_items_changed": _c_items_changed, "tag": tag})
+        SubA, SubB = mk_sub("A"), mk_sub("B")
+        init = {"list": [1], "dict": {"k": 1}, "set": {1}}[kind]
+        objs = {"base": Base(c=type(init)(init)), "A": SubA(c=type(init)(init)), "B": SubB(c=type(init)(init)), "A2": SubA(c=type(init)(init))}
+        objs["base"].tag = "base"
+
+        class Listener:
+            def __init__(self, tag):
+                self.tag = tag
+
+            def __eq__(self, other):
+                return isinstance(other, Listener)
+
+            def __hash__(self):
+                return 3
+
+            def on_items(self, event):
+                calls.append(("listener", self.tag))
+
+        who = ["base", "A", "B", "A2"][ex.choice("mutated", 4)]
+        l1, l2 = Listener("l1"), Listener("l2")
+        listened = ["base", "A"][ex.choice("listened", 2)]
+        objs[listened].on_trait_change(l1.on_items, "c_items")
+        objs[listened].on_trait_change(l2.on_items, "c_items")
+        del calls[:]
+        c = objs[who].c
+        {"list": lambda: c.append(5), "dict": lambda: c.__setitem__("n", 5), "set": lambda: c.add(5)}[kind]()
+        want = []
+        if who in ("A", "B", "A2"):
+            want.append(("static", who[0], who[0]))
+        if who == listened:
+            want += [("listener", "l1"), ("listener", "l2")]
+        ex.check(sorted(calls) == sorted(want), "one in-place change reaches exactly the items handlers of the object that owns the container "
+                                                "(its class's static handler, every listener object registered on it) - once each")
+        objs[listened].on_trait_change(l2.on_items, "c_items", remove=True)
+        del calls[:]
+        c2 = objs[listened].c
+        {"list": lambda: c2.append(6), "dict": lambda: c2.__setitem__("m", 6), "set": lambda: c2.add(6)}[kind]()
+        ex.check(("listener", "l1") in calls and ("listener", "l2") not in calls,
+                 "removing one of two equal listener objects removes that one")
+        # Undefined as an item / key / value
+        before = type(init)(objs["A"].c)
+        exc = None
+        try:
+            cu = objs["A"].c
+            hows = {"list": [lambda: cu.append(Undefined), lambda: cu.__setitem__(0, Undefined), lambda: cu.extend([2, Undefined])],
+                    "dict": [lambda: cu.__setitem__("u", Undefined), lambda: cu.update({"u": Undefined}), lambda: cu.setdefault("u", Undefined),
+                             lambda: cu.__setitem__(Undefined, 1)],
+                    "set": [lambda: cu.add(Undefined), lambda: cu.update([2, Undefined]), lambda: cu.__ior__({Undefined})]}[kind]
+            hows[ex.choice("undefined_how", len(hows))]()
+        except TraitError:
+            exc = "TraitError"
+        ex.check(exc == "TraitError" and type(init)(objs["A"].c) == before, "Undefined is validated like any other item: rejected, nothing changes")
+        return {"who": who}
+    return harness
